@@ -635,6 +635,52 @@ def zero_signal_digital(ctx):
     return n
 
 
+def windows_over_one_buffer(ctx):
+    """Several containers laid over ONE caller array with copy=False (a receiver with spare capacity behind its window and sources whose
+    windows lie in that spare region): `receiver.append([s1, s2, ...])` stores the samples the sources showed WHEN THE CALL WAS MADE, in
+    order - whether or not the buffer has to grow, whatever the sources overlap"""
+    import itertools
+    import numpy as np
+    from nitypes.waveform import AnalogWaveform, ComplexWaveform, DigitalWaveform, Spectrum
+    from props.common import outcome, show
+    n = 0
+    for cls, kind, dty in ((AnalogWaveform, "a", np.int32), (AnalogWaveform, "a", np.float64), (ComplexWaveform, "a", np.complex128), (Spectrum, "s", np.float64), (DigitalWaveform, "d", np.uint8)):
+        for total in (12, 9):
+            base_vals = (np.arange(total) % 2 if kind == "d" else np.arange(1, total + 1)).astype(dty)
+            windows = [(2, 5), (5, 7), (2, 4), (3, 6), (0, 2), (7, 9), (4, 5)]
+            for k in (1, 2, 3):
+                for combo in itertools.permutations(range(len(windows)), k):
+                    if k == 3 and (combo[0] + combo[1] + combo[2]) % 3:          # a third of the triples
+                        continue
+                    for with_extra in (False, True):
+                        buf = base_vals.copy()
+                        def win(a, b):
+                            if kind == "d":
+                                return DigitalWaveform(data=buf.reshape(-1, 1), start_index=a, sample_count=b - a)
+                            if kind == "s":
+                                return Spectrum(data=buf, start_index=a, sample_count=b - a)
+                            return cls(raw_data=buf, start_index=a, sample_count=b - a)
+                        recv = win(0, 2)
+                        srcs = [win(*windows[i]) for i in combo]
+                        extra = (DigitalWaveform.from_lines(np.array([[1], [1], [0]], np.uint8)) if kind == "d" else cls.from_array_1d(np.array([100, 101, 102]).astype(dty), dty))
+                        if with_extra:
+                            srcs = [extra] + srcs
+                        get = lambda w: np.array(w.data if kind in ("s", "d") else w.raw_data, copy=True).reshape(-1)
+                        want = np.concatenate([get(recv)] + [get(x) for x in srcs])
+                        o = outcome(recv.append, srcs if len(srcs) > 1 or with_extra else srcs[0])
+                        n += 1
+                        ctx.case(("windows-one-buffer", cls.__name__, str(np.dtype(dty)), total, combo, with_extra))
+                        if o[0] != "ok":
+                            continue                     # a refusal (the borrowed buffer cannot grow) is not this section's business
+                        got = get(recv)
+                        if got.shape != want.shape or not np.array_equal(got, want):
+                            ctx.violation(what="append of containers that are windows over the receiver's own buffer", cls=cls.__name__, dtype=str(np.dtype(dty)), buffer_length=total,
+                                          receiver="[0:2]", sources=("independent 3 samples, " if with_extra else "") + ", ".join(f"[{windows[i][0]}:{windows[i][1]}]" for i in combo),
+                                          observed=str(got.tolist())[:200], required=str(want.tolist())[:200])
+                            return n
+    return n
+
+
 def run(ctx):
     world = H.World(ctx.rng)
     # the kinds of object accepted where an integer is (tier T12: Gen/Args.lean, Props/Args.lean) against the real converters
@@ -665,6 +711,7 @@ def run(ctx):
     ctx.extra["self_aliasing_loads"] = self_aliasing_loads(ctx)
     ctx.extra["owned_after_factory"] = owned_after_factory(ctx)
     ctx.extra["zero_signal_digital"] = zero_signal_digital(ctx)
+    ctx.extra["windows_over_one_buffer"] = windows_over_one_buffer(ctx)
     ctx.extra["shared_1d_growth"] = shared_1d_growth(ctx, lambda v: ctx.violation(**v))
     ctx.extra["reads_change_nothing"] = reads_change_nothing(ctx)
     ctx.extra["narrow_scalar_calls"] = H.narrow_scalar_cases(ctx, lambda info, obs, req: ctx.violation(what="a call with narrow NumPy integer scalars differs from the call with the same Python ints", observed=obs, required=req, **info))
